@@ -387,6 +387,7 @@ func checkC16(c *ev.Ctx) {
 		sink := mon.NewSink()
 		var hist []string
 		var werr error
+		afterEnd := 0
 		pn := mon.Guard(func() {
 			w, err := cfg.NewWriter2(sink)
 			if err != nil {
@@ -424,7 +425,25 @@ func checkC16(c *ev.Ctx) {
 				}
 			}
 			werr = w.Close()
+			if werr == nil {
+				// calls a careful program may still make (Close from a defer after an explicit
+				// Close, a late Flush): they must not add chunks after the end chunk
+				endLen := len(sink.Buf)
+				w.Close()
+				w.Flush()
+				w.Write([]byte("late"))
+				w.Close()
+				if len(sink.Buf) != endLen {
+					hist = append(hist, "C F W C after Close")
+					afterEnd = len(sink.Buf) - endLen
+				}
+			}
 		})
+		if afterEnd > 0 {
+			c.Violation("writer-illegal-sequence", map[string]any{"case_id": id, "history": hist, "dictcap": cfg.DictCap,
+				"what": fmt.Sprintf("after the end chunk had been written, further Close/Flush/Write calls emitted %d more bytes (% x): chunks after the end of the stream", afterEnd, sink.Buf[len(sink.Buf)-afterEnd:])})
+			return
+		}
 		if pn != nil {
 			// the writer's own assertions about the chunk limits end as panics
 			c.Violation("writer-panic:"+firstLine(pn.Value), map[string]any{"case_id": id, "history": hist, "dictcap": cfg.DictCap, "bufsize": cfg.BufSize,
